@@ -25,6 +25,16 @@ def r_unit(qn, unit, x, unit2) -> bool:
     for name, got, exp in (("neg", -q, -q.si), ("abs", abs(q), abs(q.si))):
         if type(got) is not Q or got.si != exp or got.unit != unit:
             return rt.fail(f"C17:{name}", f"{name}({q!r}) = {got!r} si {got.si} unit {got.unit}")
+    # through the base unit into `unit` and on into an alias spelling / the next unit: SI value bit-identical
+    base = Q(x)
+    chain = base.as_unit(unit).as_unit(unit2)
+    if chain.si.hex() != base.si.hex():
+        return rt.fail("C17:as_unit-changes-si", f"{qn}({x}).as_unit({unit!r}).as_unit({unit2!r}): si {base.si!r} -> {chain.si!r}")
+    other = Q(1.25, unit2)
+    for name, got, exp in (("add", q + other, q.si + other.si), ("sub", q - other, q.si - other.si),
+                           ("add-zero-left", Q(0.0, unit) + other, other.si), ("sub-zero-left", Q(0.0, unit) - other, -other.si)):
+        if type(got) is not Q or got.si != exp or got.unit != unit:
+            return rt.fail(f"C17:{name}-unit-or-value", f"{qn}: {name} of ({x},{unit!r}) and (1.25,{unit2!r}) = {got.si} {got.unit!r}, expected {exp} {unit!r}")
     try:
         text = str(q)
     except Exception as e:      # noqa
